@@ -607,6 +607,47 @@ func c12Special(quick bool) []c12Prog {
 		b.WriteString("x = 3\n")
 		out = append(out, c12Prog{Gen: "special", Shape: "relative-jump>65535", Leaf: h.name, Src: b.String(), Run: true})
 	}
+	// operands that do not fit one byte where the opcode packs two counts into its argument:
+	// star-unpacking with 255 / 256 / 257 / 300 targets before and after the starred one (executed:
+	// what UNPACK_EX pushes has to be what the following stores pop), and calls with 254..256
+	// positional or keyword arguments
+	{
+		names := func(p string, n int) []string {
+			var out []string
+			for i := 0; i < n; i++ {
+				out = append(out, p+itoa(i))
+			}
+			return out
+		}
+		for _, ba := range [][2]int{{0, 255}, {0, 256}, {0, 257}, {255, 0}, {256, 0}, {257, 1}, {1, 300}, {255, 255}, {256, 256}} {
+			if quick && ba[0]+ba[1] > 400 {
+				continue
+			}
+			ns := append(append(names("p", ba[0]), "*s"), names("q", ba[1])...)
+			t := strings.Join(ns, ", ")
+			check := "r = (len(s)"
+			if ba[0] > 0 {
+				check += ", p0, p" + itoa(ba[0]-1)
+			}
+			if ba[1] > 0 {
+				check += ", q0, q" + itoa(ba[1]-1)
+			}
+			check += ")\n"
+			leaf := itoa(ba[0]) + "-" + itoa(ba[1])
+			out = append(out, c12Prog{Gen: "special", Shape: "star-unpack", Leaf: leaf, Src: "t = list(range(700))\n" + t + " = t\n" + check, Run: true})
+			out = append(out, c12Prog{Gen: "special", Shape: "star-unpack-in-def", Leaf: leaf, Src: "def f(t):\n " + t + " = t\n return s\nr = len(f(list(range(700))))\n", Run: true})
+			out = append(out, c12Prog{Gen: "special", Shape: "star-unpack-for", Leaf: leaf, Src: "for " + t + " in [list(range(700))]:\n r = len(s)\n", Run: true})
+		}
+		for _, n := range []int{254, 255, 256} {
+			var pos, kws []string
+			for i := 0; i < n; i++ {
+				pos = append(pos, itoa(i))
+				kws = append(kws, "k"+itoa(i)+"="+itoa(i))
+			}
+			out = append(out, c12Prog{Gen: "special", Shape: "call-positional", Leaf: itoa(n), Src: "def f(*a, **k):\n return len(a) + len(k)\nr = f(" + strings.Join(pos, ", ") + ")\n", Run: true})
+			out = append(out, c12Prog{Gen: "special", Shape: "call-keywords", Leaf: itoa(n), Src: "def f(*a, **k):\n return len(a) + len(k)\nr = f(" + strings.Join(kws, ", ") + ")\n", Run: true})
+		}
+	}
 	// long chains of jumps followed by code that needs more stack than anything before it: the
 	// declared stack size has to cover what comes after the 1000th, 2000th ... jump target too
 	{
